@@ -2,83 +2,6 @@
 
 package sftp
 
-import (
-	"encoding"
-	"io"
-)
-
-// ---- harness-side helpers shared by several properties ----
-
-// vBuf records everything written to it.
-type vBuf struct {
-	b      []byte
-	writes int
-	closed bool
-}
-
-func (w *vBuf) Write(p []byte) (int, error) {
-	w.b = append(w.b, p...)
-	w.writes++
-	return len(p), nil
-}
-func (w *vBuf) Close() error { w.closed = true; return nil }
-
-// vReader serves a byte slice.
-type vReader struct {
-	data []byte
-	pos  int
-}
-
-func (r *vReader) Read(p []byte) (int, error) {
-	if r.pos >= len(r.data) {
-		return 0, io.EOF
-	}
-	n := copy(p, r.data[r.pos:])
-	r.pos += n
-	return n, nil
-}
-
-// reference encoders written from draft-ietf-secsh-filexfer-02 section 3/4
-func refU32(b []byte, v uint32) []byte {
-	return append(b, byte(v>>24), byte(v>>16), byte(v>>8), byte(v))
-}
-func refU64(b []byte, v uint64) []byte {
-	return refU32(refU32(b, uint32(v>>32)), uint32(v))
-}
-func refStr(b []byte, s string) []byte {
-	b = refU32(b, uint32(len(s)))
-	for i := 0; i < len(s); i++ {
-		b = append(b, s[i])
-	}
-	return b
-}
-func refFrame(typ byte, body []byte) []byte {
-	b := refU32(nil, uint32(len(body)+1))
-	b = append(b, typ)
-	return append(b, body...)
-}
-
-// vWire sends m with the real sendPacket and returns the bytes on the wire,
-// after asserting the length prefix.
-func vWire(m encoding.BinaryMarshaler) []byte {
-	w := &vBuf{}
-	err := sendPacket(w, m)
-	vAssert(err == nil, "sendPacket succeeds")
-	vAssert(len(w.b) >= 5, "frame has header")
-	n := uint32(w.b[0])<<24 | uint32(w.b[1])<<16 | uint32(w.b[2])<<8 | uint32(w.b[3])
-	vAssert(int(n) == len(w.b)-4, "length prefix equals number of bytes that follow")
-	return w.b
-}
-
-// vUnwire reads one frame with the real recvPacket and decodes it with makePacket.
-func vUnwire(b []byte) (requestPacket, error) {
-	r := &vReader{data: b}
-	typ, payload, err := recvPacket(r, nil, 0)
-	vAssert(err == nil, "recvPacket accepts what sendPacket wrote")
-	vAssert(r.pos == len(b), "recvPacket consumes the whole frame")
-	return makePacket(rxPacket{typ, payload})
-}
-
 const vS = 3 // string bound (quick)
 
 func vh_C06_rt_read() {
